@@ -43,6 +43,16 @@ EXCEPTIONS = {
 }
 
 
+# list-kinded overloads of documented-vectorising elements that the
+# documentation itself lists as overloads (reviewed)
+DOCUMENTED_LIST_OVERLOADS = {
+    ("log_mold_multi", "(list, list)"): "• on two lists is 'mold a to the "
+                                        "shape of b' (documented overload)",
+    ("modulo", "(str, list)"): "% with a string and a list is string "
+                               "formatting (documented overload)",
+}
+
+
 def value_params(fn):
     return [a.arg for a in fn.args.args if a.arg not in ("ctx", "_", "self")]
 
@@ -269,6 +279,43 @@ def check(chk, repo, tier):
                 "neither the scalar nor any item of a list is handled")
                if bad else "", EF, bad[0][0].lineno if bad else fn.lineno,
                witness="⟨`ab`|`c`⟩ `x` 5 ø↲")
+
+    # ---- (D) what the documentation calls vectorising claims no list shape ----------
+    from ..core import read_elements_yaml  # noqa: PLC0415
+    from ..templates import Gen, table_keys_with_nodes  # noqa: PLC0415
+    gen_ = Gen(repo)
+    elems_ = gen_.elements()
+    fn_of = {}
+    for key, knode, vnode in table_keys_with_nodes(repo, "elements"):
+        v = elems_.get(key)
+        if isinstance(v, tuple) and isinstance(v[0], str):
+            try:
+                t_ = ast.parse(v[0])
+            except SyntaxError:
+                continue
+            fn_of[key] = [dotted(c.func) for c in ast.walk(t_)
+                          if isinstance(c, ast.Call)
+                          and (dotted(c.func) or "") in mod.functions]
+    n_doc = 0
+    for rec in read_elements_yaml(repo):
+        if str(rec.get("vectorise")).lower() != "true":
+            continue
+        for fname in fn_of.get(rec["key"], []):
+            n_doc += 1
+            keys = [k for k in list_keys_of(mod.functions[fname])
+                    if k.replace(" ", "") != "list"
+                    and (fname, k) not in DOCUMENTED_LIST_OVERLOADS]
+            chk.ob("C08.documented-vectorising-claims-no-list-shape",
+                   f"yaml[{rec['key']!r}] -> {fname}", not keys,
+                   f"the documentation marks {rec['key']!r} as vectorising, "
+                   f"but `{fname}` handles the shape(s) {keys} itself "
+                   "instead of applying the element to each item", EF,
+                   mod.functions[fname].lineno,
+                   witness=f"a list and a scalar given to {rec['key']}",
+                   sample={"element": rec["key"], "function": fname}
+                   if n_doc % 17 == 0 else None)
+    chk.floor("documented-vectorising elements resolved to functions",
+              n_doc, 60)
 
     # ---- (L) eager / lazy symmetry ----------------------------------------------------
     for fn in mod.functions.values():
